@@ -385,6 +385,67 @@ theorem predictCore_frame (fx : Fixes) (L : Learner) (st : State) (sarg : Arg) (
     predictCore fx L st sarg = (predictCore fx L st.core sarg).map (fun p => (p.1, p.2.withCache st)) :=
   predictCore_frame' fx L st sarg hl
 
+/-- **the splittings the driver executes.**  `run` equals `runSplit` (first call, then `runFrozen` with what that call decided) and
+`runCore` (every call on a decided wrapper made on `State.core`) - for every learner, state and list of calls.  The harness
+compares the three on every generated history ((C)) and `run` with the real SafeLearner ((A)). -/
+theorem run_eq_runSplit (fx : Fixes) (L : Learner) (st : State) (args : List Arg) : run fx L st args = runSplit fx L st args :=
+  run_eq_runSplit' fx L st args
+
+theorem run_eq_runCore (fx : Fixes) (L : Learner) (args : List Arg) (st : State) : run fx L st args = runCore fx L st args :=
+  run_eq_runCore' fx L args st
+
+/-- **learn with its own call-style memo.**  `learnM` (the memo `_method['learn']` decided on the first learn and kept) delivers
+exactly what `learn` (the memo-free model of `history_roundtrip`) delivers whenever the memo is one a uniformly used wrapper
+can hold (`learnMemoOK`); for switched wrappers `learnM` is what the driver compares with the real code. -/
+theorem learnM_uniform (batchable : Bool) (memo : Option Nat) (arg : Arg) (res : Result) (rw : PyVal)
+    (h : learnMemoOK batchable memo arg = true) :
+    (learnM batchable memo arg res rw).map Prod.fst = learn batchable arg res rw :=
+  learnM_uniform' batchable memo arg res rw h
+
+example : learnMemoOK false (some 2) (.batch [.int 0] [[.int 5]]) = true := by decide
+
+/-- the hypothesis is needed: after an unbatched first learn (memo 1) a batch goes straight to a learner that cannot batch -/
+theorem learnM_switched_counterexample :
+    (learnM false (some 1) (.batch [.int 0] [[.int 5]]) ⟨.list .tmp [.int 5], .list .tmp [.none], .dict .tmp [] []⟩ (.list .tmp [.int 1])).toOption.isNone = true ∧
+    (learn false (.batch [.int 0] [[.int 5]]) ⟨.list .tmp [.int 5], .list .tmp [.none], .dict .tmp [] []⟩ (.list .tmp [.int 1])).toOption.isSome = true :=
+  learnM_switched_counterexample'
+
+/-- **one statement per format** (goal 3).  For every format × ±kwargs × layout (row, col, single = per-row fallback), every
+policy and batch: (1) `predict` delivers `wantBatch`; (2) the kwargs come back as finite maps - the rows may give their keys
+in ANY order (`sameKeys` = same key set): row j gets, under the first row's keys, values `kwEquiv` to what the learner gave for
+row j; (3) `score` on the same wrapper and batch returns the policy's per-row scores in row order, natively for a learner that
+takes batches and by one call per row otherwise - whatever the prediction format is. -/
+theorem format_roundtrip_full (fx : Fixes) (sp : Spec) (pol : Policy) (st : State) (cs : List PyVal) (rows : List (List PyVal))
+    (tup : Bool) (m : Option Nat)
+    (hinv : Inv sp true st) (hlen : cs.length = rows.length) (hne : rows ≠ [])
+    (hU : Unambiguous fx sp st (rowsOf pol cs rows) = true) (hm : ScoreInv (sp.layout != .single) m) :
+    Delivers (predictCore fx (scripted sp pol) st (.batch cs rows)) (wantBatch sp st.rng (rowsOf pol cs rows)) (stAfter sp true st) ∧
+    (sp.kw = true → sameKeys (rowsOf pol cs rows) = true → ∀ j r, (rowsOf pol cs rows)[j]? = some r →
+      kwEquiv (wantKw sp (rowsOf pol cs rows)).1 ((wantKw sp (rowsOf pol cs rows)).2.map (fun c => c.getD j .none)) r.1.kwKeys r.1.kwVals) ∧
+    (∀ acts, cs ≠ [] → acts.length = cs.length → (∀ c a x, (scoreOf pol c a x).isDict = false) →
+      ∃ v, score fx (some (scriptedScore pol (sp.layout != .single) tup)) m (.batch cs rows acts) =
+          .ok (v, if (sp.layout != .single) then 1 else 2) ∧ v.items = some (scoresOf pol cs rows acts)) :=
+  format_roundtrip_full' fx sp pol st cs rows tup m hinv hlen hne hU hm
+
+/-- **has_score, its wrong verdicts characterised.**  For a learner that implements `score` the verdict is wrong (reported absent)
+exactly when the probe call `score(None,None,None)` raises with a text that contains the substring "score" (any exception
+class); a learner without `score` or with the base class's is never reported as having one. -/
+theorem has_score_wrong_iff (p : ScoreProbe) :
+    hasScore (probeOf (.implemented p)) = false ↔ ∃ f, p = .raises f ∧ strContains f.msg "score" = true :=
+  has_score_wrong_iff' p
+
+theorem has_score_never_for_missing (k : ScoreKind) (h : ∀ p, k ≠ .implemented p) : hasScore (probeOf k) = false :=
+  has_score_never_for_missing' k h
+
+example : ∀ p, ScoreKind.absent "Model" ≠ .implemented p := by intro p h; cases h
+
+/-- it is a substring test: ValueError("bad underscore in name") makes an implemented score "absent", "Scoreboard" does not
+(replayed on the real code: corpus / generated `score_kind` cases, (A) `A:has_score`) -/
+theorem has_score_substring_counterexample :
+    hasScore (probeOf (.implemented (.raises ⟨false, "bad underscore in name"⟩))) = false ∧
+    hasScore (probeOf (.implemented (.raises ⟨false, "Scoreboard is missing"⟩))) = true :=
+  has_score_substring_counterexample'
+
 /-- **translator obligation.**  The constants `harness/props/c15.py` reads from the CURRENT coba/safety.py on every run
 (`Generated/C15Consts.lean`: both `is_hint` key lists, `possible_pmf`'s total and tolerance, the probe strings of `has_score` and
 `score`, `make_safe`'s list) are the ones the model is written with … -/
